@@ -272,11 +272,14 @@ def isBrk : Completion → Bool | .brk => true | _ => false
 /-- Marker events (prefix `!`, never part of the observable log: the driver strips them).  They flag the two
 situations in which the pinned goja is known to deviate (design/C09.md, known_findings.d/C09.json):
 `!A` a throw completion leaves a finally block that was entered by normal completion of a try block with a catch;
-`!B` a throw completion exists while a finally block entered because of the driver's return(v) is running. -/
-def defectMarks (cp : Completion) (armed : Bool) : List Event :=
-  match cp with
-  | .thr _ => if armed then ["!A"] else []
-  | _ => []
+`!B` a throw completion exists while a finally block entered because of the driver's return(v) is running, or any\nabrupt completion (break, return statement, throw) abandons such a block. -/
+def defectMarks (cp : Completion) (pending : Option Completion) (armed : Bool) : List Event :=
+  (match cp with
+   | .thr _ => if armed then ["!A"] else []
+   | _ => []) ++
+  (match pending with
+   | some (.ret _ true) => ["!B"]      -- any abrupt completion abandons a finally block entered by return(v)
+   | _ => [])
 
 def isRetFin : Frame → Bool
   | .finK (some (.ret _ true)) _ => true
@@ -315,7 +318,7 @@ def stepAbrupt (c : Conf) (cp : Completion) : StepOut :=
       match fin with
       | some fb => .cont { c with ctl := .exec fb, k := .finK (some cp) false :: k' } []
       | none => .cont { c with k := k' } []
-    | .finK _ armed => .cont { c with k := k' } (defectMarks cp armed)
+    | .finK pending armed => .cont { c with k := k' } (defectMarks cp pending armed)
     | .forOfK _ it _ =>
       if isBrk cp then .cont { c with ctl := .val .undef, k := k' } (iterClose it)
       else .cont { c with k := k' } (iterClose it)
